@@ -15,7 +15,6 @@ import (
 
 var c05BufSizes = []int{1, 2, 3, 4, 8, 512}
 
-
 var c05Names = []string{"a", "b", "deploy", ""}
 var c05Payloads = []string{"", "x", "\x00\x01", "x"}
 
